@@ -236,7 +236,28 @@ def rule_sg6(A: Analysis, rep):
                 tv = A.prog.fold(wt.module, c.args[3])
                 bounded = isinstance(tv, (int, float)) and not isinstance(tv, bool) and 0 < tv <= 5
                 gs = A.path_guards(gw, gw.entry, rn, wt)
-                gated = bool(gs) and all(any("select.select(" in a and p for a, p in cj) for cj in gs)
+                # the poll result may be tested directly or through a local that only ever holds "nothing yet" ([]) or
+                # the readable list returned by that select call
+                ready_vars = set()
+                for nm_ in {x.id for x in ast.walk(wt.node) if isinstance(x, ast.Name) and isinstance(x.ctx, ast.Store)}:
+                    ds_ = A.defs(wt, nm_)
+                    def _from_select(d):
+                        if isinstance(d, (ast.Assign, ast.AnnAssign)) and d.value is not None:
+                            tg_ = d.targets[0] if isinstance(d, ast.Assign) else d.target
+                            if norm(d.value) in ("[]", "()", "list()"):
+                                return True
+                            if isinstance(tg_, (ast.Tuple, ast.List)) and d.value is c and isinstance(tg_.elts[0], ast.Name) and tg_.elts[0].id == nm_:
+                                return True
+                            if isinstance(tg_, ast.Name) and isinstance(d.value, ast.Subscript) and d.value.value is c and norm(d.value.slice) == "0":
+                                return True
+                        return False
+                    if ds_ and all(_from_select(d) for d in ds_) and any(not norm(getattr(d, "value", ast.Constant(0))) in ("[]", "()", "list()") for d in ds_):
+                        ready_vars.add(nm_)
+                def _ready(a, p):
+                    if "select.select(" in a and p:
+                        return True
+                    return any((a == "empty(%s)" % v and not p) or (a == "t(%s)" % v and p) for v in ready_vars)
+                gated = bool(gs) and all(any(_ready(a, p) for a, p in cj) for cj in gs)
                 ok9 = bounded and gated
                 det9 = "select timeout=%r (must be a positive constant ≤ 5 s); read gated by the poll result=%s" % (tv, gated)
     rep.check(ok9, "SG9", "blocking wait has a timeout (no lost SIGCHLD wake-up)", wt.node,
